@@ -562,10 +562,12 @@ func (i *Iterator[T]) ProcessParallel(
 		wg := &WaitGroup{}
 
 		operation := fn.WithRecover().WithErrorFilter(func(err error) error {
-			return ft.WhenDo(
-				!opts.CanContinueOnError(err),
-				ft.Wrapper(io.EOF),
-			)
+			if opts.CanContinueOnError(err) {
+				return nil
+			}
+			// abort: stop the other workers as well.
+			cancel()
+			return io.EOF
 		})
 
 		splits := i.Split(opts.NumWorkers)
